@@ -75,7 +75,8 @@ func genC18(env *core.Env, emit func(core.Case)) {
 			tail = tail[len(tail)-1500:]
 		}
 		emit(core.Case{Name: "c18sim", Stream: "simulator", Key: "simulator-did-not-run",
-			Ops: []core.Op{{Kind: 'X', Note: "the synctest simulation of Dialer.Dial builds and runs", Want: fmt.Sprintf("go test ./c18sim failed: %v: %s", err, tail)}}})
+			// not a failing input: the tie itself is broken (reported as a correspondence break)
+			Ops: []core.Op{{Kind: 'M', Line: "reset", Note: "the synctest simulation of Dialer.Dial builds and runs", Want: fmt.Sprintf("go test ./c18sim failed: %v: %s", err, strings.Join(strings.Fields(tail), " "))}}})
 		return
 	}
 	seen := map[string]bool{}
